@@ -88,4 +88,83 @@ theorem crun_Covered (c : Cfg) (evs : List CEv) : Covered c (crun c evs) := by
     | cons e es ih => intro σ h; exact ih _ (cstep_Covered c σ e h)
   exact this evs {} ⟨sinv_init c.rob, rfl⟩
 
+/-! ## the compute unit's tick applies the response at the head of its scalar port -/
+
+open C14.Flush in
+theorem procV1_s (s : C14.Flush.St) : (procV1 s).s = s.s := by
+  unfold procV1
+  split
+  · rfl
+  · simp only; split <;> rfl
+
+open C14.Flush in
+theorem procV_s (n : Nat) (s : C14.Flush.St) : (procV n s).s = s.s := by
+  induction n generalizing s with
+  | zero => rfl
+  | succ n ih => exact (ih (procV1 s)).trans (procV1_s s)
+
+open C14.Flush in
+theorem procCP_s (c : C14.Flush.Cfg) (s : C14.Flush.St) : (procCP c s).s = s.s := by
+  unfold procCP; repeat' split
+  all_goals rfl
+
+open C14.Flush in
+theorem flushPipeline_applied (s : C14.Flush.St) : (flushPipeline s).s.applied = s.s.applied := by
+  unfold flushPipeline; repeat' split
+  all_goals rfl
+
+open C14.Flush in
+theorem doFlush_applied (c : C14.Flush.Cfg) (s : C14.Flush.St) : (doFlush c s).s.applied = s.s.applied := by
+  unfold doFlush
+  have h2 : ∀ t : C14.Flush.St, (if t.isSending then checkShadow c t else t).s.applied = t.s.applied := by
+    intro t; split
+    · unfold checkShadow; split
+      · rfl
+      · exact drain_applied _ _
+    · rfl
+  simp only
+  rw [h2]
+  split
+  · rw [flushPipeline_applied]; split <;> rfl
+  · rfl
+
+open C14.Flush in
+/-- the response at the head of the scalar port that names the CURRENT request of an in-flight record
+    is applied by the compute unit's next tick (if it reads its ports: running or re-sending) -/
+theorem tick_applies_current (c : C14.Flush.Cfg) (s : C14.Flush.St) (e : Entry) (rest : List C14.Flush.Req)
+    (hinp : s.s.inp = (e.id, e.gen) :: rest) (he : e ∈ s.s.inf)
+    (hrun : s.isPaused = false ∨ s.isSending = true) :
+    e.id ∈ (C14.Flush.tick c s).s.applied := by
+  have e0 : C14.Flush.tick c s = doFlush c (procCP c
+      (if !(sendToCP c s).isPaused || (sendToCP c s).isSending then procV 16 (procS (procF (sendToCP c s)))
+       else sendToCP c s)) := rfl
+  have hflags : (sendToCP c s).isPaused = s.isPaused ∧ (sendToCP c s).isSending = s.isSending ∧
+      (sendToCP c s).s = s.s := by
+    unfold sendToCP; split <;> exact ⟨rfl, rfl, rfl⟩
+  have hcond : (!(sendToCP c s).isPaused || (sendToCP c s).isSending) = true := by
+    rw [hflags.1, hflags.2.1]
+    rcases hrun with h | h <;> simp [h]
+  rw [e0, if_pos hcond, doFlush_applied, procCP_s, procV_s]
+  have hF : (procF (sendToCP c s)).s = s.s := by
+    unfold procF; split
+    · exact hflags.2.2
+    · exact hflags.2.2
+  unfold procS
+  rw [hF, hinp]
+  simp only
+  split
+  · rename_i ch hres
+    exfalso
+    unfold Chan.respond at hres
+    split at hres
+    · rename_i hnone
+      have := List.find?_eq_none.1 hnone e he
+      simp [Entry.is] at this
+    · simp at hres
+  · rename_i ch y hres
+    obtain ⟨ha, _, hr, _⟩ := applied_of_respond hres
+    have hid : y.id = e.id := congrArg Prod.fst hr
+    show e.id ∈ ch.applied
+    rw [ha, ← hid]; simp
+
 end C15.Cu
